@@ -51,8 +51,7 @@ def run_ctx(chk, suite, tier, workers=6):
     """Context twins (spec/MC_Ctx.tla): every case the suite just emitted is placed in other contexts (body of a function
     value called twice, declared function, function made by a function, module member, block, loop / while / for body,
     branch of if / if-set / match, callback of @ and of $ init f); TLC evaluates the wrapped program (the prediction that
-    is replayed) and checks the law CtxLaw on the specification.  Quick tier: one context per case, rotating; thorough:
-    all sixteen."""
+    is replayed) and checks the law CtxLaw on the specification.  Quick tier: one context per case, rotating with the case number; thorough: four."""
     src = os.path.join(C.WORK, "suite_" + suite, suite.replace("deep", "") + "_cases.ndjson")
     out = C.workdir("ctx_" + suite)
     res = C.run_tlc("MC_Ctx", "MC_Ctx_thorough.cfg" if tier == "thorough" else "MC_Ctx.cfg", workers=workers,
